@@ -4,6 +4,7 @@ import PMV.Model.Minify
 import PMV.Proofs.Transforms
 import PMV.Proofs.TransformsImports
 import PMV.Proofs.RemovePass
+import PMV.Proofs.DropGuard
 /-
   C05 — Each option performs only its documented rewrite, only where it is valid.
   `Spec.Rewrites.canonModule c` erases exactly what the documentation lets the options in `c` do.
@@ -44,15 +45,33 @@ theorem remove_pass_only_documented (m : Module) :
   rw [this]
   exact canon_suiteT _ _ (fun cls fb m ys => removePass_suite cls fb m ys) rfl rfl m
 
-/-- T05.1 (remove_asserts) -/
+/-- T05.1 (remove_asserts): output = input modulo dropping `assert` statements and `0` placeholders (one is left in a block that
+    would become empty and, since fix F41, in front of a string statement that would become a docstring; the same for remove_debug). -/
 theorem remove_asserts_only_documented (m : Module) :
-    canonModule { asserts := true } (travModule removeAsserts m) = canonModule { asserts := true } m := by
-  apply canon_dropT (c := { asserts := true }) (q := isAssert) ⟨rfl, rfl, rfl⟩
-  · intro s hs; simp [dropStmt, hs]
-  · simp [dropStmt, COpts.placeholders, isZero, zeroStmt]
-  · intro cls s; exact (kind_cStmt _ cls s).2.1
-  · rfl
-  · rfl
+    canonModule { asserts := true } (travModule removeAsserts m) = canonModule { asserts := true } m :=
+  removeAsserts_canon m
+
+/-- T05.6 (F39, F41): none of the statement-removing options gives a module, class or function a docstring. Whatever is nested
+    in it, a block that does not start with a string statement does not start with one after remove_pass, remove_asserts or
+    remove_debug (`m` says whether the block is the module body). -/
+theorem docstring_never_gained (m : Bool) (b : List Stmt) (h : startsWithString b = false) :
+    startsWithString (removePass.suiteF m (travBody removePass b)) = false
+    ∧ startsWithString (removeAsserts.suiteF m (travBody removeAsserts b)) = false
+    ∧ startsWithString (removeDebug.suiteF m (travBody removeDebug b)) = false :=
+  no_docstring_gained m b h
+
+-- Non-vacuity: `assert x; 'text'; y` keeps `'text'` second (a `0` in front); `x; assert x; 'text'` just loses the assert;
+-- without the guard (the plain filter) the first block would start with the string.
+example :
+    let txt : Stmt := .expr (.constant (.str "'text'" [116]))
+    let x : Expr := .name "x" .load
+    startsWithString [.assert_ x none, txt, .expr x] = false
+    ∧ (removeAsserts.suiteF false [.assert_ x none, txt, .expr x]).map isStrStmt = [false, true, false]
+    ∧ (removeAsserts.suiteF false [.expr x, .assert_ x none, txt]).map isStrStmt = [false, true]
+    ∧ startsWithString (filterSuite isAssert false [.assert_ x none, txt, .expr x]) = true
+    ∧ (removeDebug.suiteF true [.if_ (.name "__debug__" .load) [.expr x] [], txt]).map isStrStmt = [false, true]
+    ∧ (removePass.suiteF false [.pass, .pass, txt]).map isStrStmt = [false, true] := by
+  decide
 
 /-- T05.1 (remove_literal_statements), including the `__doc__` guard: when the module mentions
     `__doc__` nothing is removed at all (so in particular the module docstring stays). -/
